@@ -215,6 +215,7 @@ type Cfg struct {
 	StructKeys   bool // allow struct / double map keys
 	Recursive    bool // allow self-referencing optional fields
 	Defaults     bool // emit IDL defaults on some scalar fields
+	SharedNames  bool // field names recur in different structs (with unrelated ids)
 	Requiredness bool // mix required/optional/default; else all default-requiredness... (optional for recursive)
 	BigIDs       bool // ids from {255..257, 32767, random}
 	Aliases      bool // api.key aliases on some fields
@@ -327,6 +328,9 @@ func (g *sgen) newStruct(depth int) *StructT {
 		}
 		used[id] = true
 		f := &FieldT{ID: id, Name: fmt.Sprintf("f%d_%d", sn, i)}
+		if g.cfg.SharedNames && g.r.Chance(40) {
+			f.Name = fmt.Sprintf("sh_%d", i) // the same name in several structs, under different ids
+		}
 		if g.cfg.Recursive && depth > 0 && g.r.Chance(8) {
 			f.T = &Type{T: tref.STRUCT, S: st}
 			f.Req = ReqOptional
@@ -425,6 +429,7 @@ var f64Specials = []uint64{
 type ValCfg struct {
 	NonFinite   bool // allow NaN/Inf doubles
 	InvalidUTF8 bool // allow invalid UTF-8 in strings
+	BinKeys     bool // string/binary map keys may be arbitrary bytes too (readers only: no JSON spelling)
 	MaxElems    int
 	MaxStr      int
 	AllFields   bool // every struct field present
@@ -614,13 +619,13 @@ func GenVal(r *h.Rand, t *Type, cfg ValCfg, depth int) *tref.Val {
 		seen := map[string]bool{}
 		for i := 0; i < n; i++ {
 			kc := cfg
-			kc.InvalidUTF8 = false
+			kc.InvalidUTF8 = cfg.InvalidUTF8 && cfg.BinKeys
 			kc.NonFinite = false
 			if kc.MaxStr == 0 || kc.MaxStr > 40 {
 				kc.MaxStr = 40
 			}
 			kt := t.Key
-			if kt.T == tref.STRING && kt.Bin {
+			if kt.T == tref.STRING && kt.Bin && !cfg.BinKeys {
 				// binary map keys travel verbatim as JSON member names: text, not arbitrary bytes
 				kt = &Type{T: tref.STRING}
 			}
